@@ -2,8 +2,6 @@
 #[verifier::external_type_specification]
 #[verifier::external_body]
 pub struct ExFromUtf8Error(std::string::FromUtf8Error);
-pub assume_specification<T: Clone>[ <[T]>::to_vec ](s: &[T]) -> (r: Vec<T>)
-    ensures r@ == s@;
 pub open spec fn ascii_bytes(b: Seq<u8>) -> bool { forall|i: int| 0 <= i < b.len() ==> b[i] < 128 }
 // String::from_utf8 accepts every ASCII byte string and yields exactly those characters
 pub assume_specification[ String::from_utf8 ](v: Vec<u8>) -> (r: Result<String, std::string::FromUtf8Error>)
